@@ -1,6 +1,7 @@
 package main
 
 import (
+	"math/big"
 	"bytes"
 	"encoding/hex"
 	stdjson "encoding/json"
@@ -584,4 +585,63 @@ func tokensInCommonModel(ts []tok.Token) bool {
 		}
 	}
 	return true
+}
+
+// clonex <aid> <tid-src> <tid-dst> <val>: Clone into a variable of ANOTHER type (source handed over by value and by
+// pointer).  Oracle for numbers: an integer lands exactly or the call fails.
+func opCloneX(p []string) string {
+	a := atlasByID(p[0])
+	id, _ := strconv.Atoi(p[1])
+	id2, _ := strconv.Atoi(p[2])
+	t, t2 := typeByID[id], typeByID[id2]
+	rv, err := buildValue(t, p[3])
+	if err != nil {
+		return "bad-op " + err.Error()
+	}
+	src := reflect.New(t)
+	src.Elem().Set(rv)
+	run := func(arg interface{}) (string, reflect.Value) {
+		dst := reflect.New(t2)
+		e, pn := safely(func() error { return refmt.CloneAtlased(arg, dst.Interface(), a.atl) })
+		if pn {
+			return "-/panic", dst
+		}
+		if e != nil {
+			return "-/err", dst
+		}
+		return dumpValue(dst.Elem()) + "/ok", dst
+	}
+	byPtr, _ := run(src.Interface())
+	byVal, dst := run(src.Elem().Interface())
+	oracle := "ok"
+	switch {
+	case strings.HasSuffix(byVal, "/panic") || strings.HasSuffix(byPtr, "/panic"):
+		oracle = "viol:panic"
+	case byPtr != byVal:
+		oracle = "viol:by-value-" + byVal + "-differs-from-by-pointer"
+	case strings.HasSuffix(byVal, "/ok"):
+		if sn, ok := exactInt(src.Elem()); ok {
+			if dn, ok2 := exactInt(dst.Elem()); ok2 && sn.Cmp(dn) != 0 {
+				oracle = "viol:number-silently-changed:" + sn.String() + "-became-" + dn.String()
+			}
+		}
+	}
+	return fmt.Sprintf("I=%s O=%s", byVal, oracle)
+}
+
+// exactInt: the mathematical value of an integer variable (through pointers and interfaces)
+func exactInt(v reflect.Value) (*big.Int, bool) {
+	for v.Kind() == reflect.Ptr || v.Kind() == reflect.Interface {
+		if v.IsNil() {
+			return nil, false
+		}
+		v = v.Elem()
+	}
+	switch v.Kind() {
+	case reflect.Int, reflect.Int8, reflect.Int16, reflect.Int32, reflect.Int64:
+		return big.NewInt(v.Int()), true
+	case reflect.Uint, reflect.Uint8, reflect.Uint16, reflect.Uint32, reflect.Uint64, reflect.Uintptr:
+		return new(big.Int).SetUint64(v.Uint()), true
+	}
+	return nil, false
 }
